@@ -1,12 +1,17 @@
 //@unit C11_popscanline
 //@props C11
-//@desc ClipperBase::PopScanline - BOUNDED (queue of 0..4 pending scanlines, any values, duplicates anywhere; std::priority_queue is modelled by its specification: top() is the largest element, pop() removes one copy of it, both only on a non-empty queue): an empty queue gives false and leaves y alone; otherwise y is the LARGEST pending scanline, EVERY copy of it is removed and nothing else is - so each later PopScanline returns a strictly smaller y: the sweep visits every scheduled scanline once, in strictly decreasing order, which is what bounds the main loop of ExecuteInternal by the number of distinct scheduled y values.
+//@desc ClipperBase::InsertScanline (loop-free): exactly the y asked for is scheduled, once. ClipperBase::PopScanline - BOUNDED (queue of 0..4 pending scanlines, any values, duplicates anywhere; std::priority_queue is modelled by its specification: top() is the largest element, pop() removes one copy of it, both only on a non-empty queue): an empty queue gives false and leaves y alone; otherwise y is the LARGEST pending scanline, EVERY copy of it is removed and nothing else is - so each later PopScanline returns a strictly smaller y: the sweep visits every scheduled scanline once, in strictly decreasing order, which is what bounds the main loop of ExecuteInternal by the number of distinct scheduled y values.
 #include "vf.h"
 //@include engine_types.inc
 int64_t g_q[4]; size_t g_n, g_head;    /* pending scanlines, largest first: g_q[g_head .. g_n) */
 static bool vf_pq_empty(void) { return g_head == g_n; }
 static int64_t vf_pq_top(void) { __CPROVER_assert(g_head < g_n, "top() on a non-empty queue"); return g_q[g_head]; }
 static void vf_pq_pop(void) { __CPROVER_assert(g_head < g_n, "pop() on a non-empty queue"); g_head++; }
+int64_t g_pushed_y; int g_npushed;
+static void vf_pq_push(int64_t y) { g_pushed_y = y; g_npushed++; }
+//@extract file=CPP/Clipper2Lib/src/clipper.engine.cpp func=ClipperBase::InsertScanline self=ClipperBase
+//@sub /self->scanline_list_\.push\(/vf_pq_push(/
+//@end
 //@extract file=CPP/Clipper2Lib/src/clipper.engine.cpp func=ClipperBase::PopScanline self=ClipperBase byptr=y
 //@sub /self->scanline_list_\.empty\(\)/vf_pq_empty()/ min=1
 //@sub /self->scanline_list_\.top\(\)/vf_pq_top()/ min=1
@@ -29,4 +34,12 @@ void h_PS(void)
   }
   VF_CANARY();
 }
+void h_IS(void)
+{
+  ClipperBase cb; int64_t y = nondet_i64(); g_npushed = 0;
+  InsertScanline(&cb, y);
+  __CPROVER_assert(g_npushed == 1 && g_pushed_y == y, "the scanline asked for is scheduled, once, unchanged");
+  VF_CANARY();
+}
+//@run name=InsertScanline entry=h_IS flags="--bounds-check --pointer-check" timeout=120
 //@run name=PopScanline entry=h_PS unwind=6 flags="--bounds-check --pointer-check" timeout=120 bounded="queue of 0..4 scanlines"
